@@ -332,7 +332,29 @@ func c16Structure(c *Ctx) {
 			c.Check(nPad == 2, "R4.modhex", "ModHex|old serials padded with two zero digits", w.FnPos(mh), "dst[0], dst[1] = alphabet[0]", "the 3-byte form is not padded with two ModHex zero digits")
 			// serial = ext.Value[2:] of the matching extension; absent -> error; other lengths -> error
 			sx := w.Expr(serial)
-			c.Check(strings.Contains(sx, ".Value[const(2):]") || strings.Contains(sx, "var<[]byte>") || strings.Contains(sx, "phi{"), "R4.modhex", "ModHex|serial is the extension value after the DER header", w.FnPos(mh), "ext.Value[2:]", "the serial bytes are not the extension value after its two header bytes: "+shortName(sx))
+			okSerial := strings.Contains(sx, ".Value[const(2):]") || strings.Contains(sx, "var<[]byte>") || strings.Contains(sx, "phi{")
+			if !okSerial {
+				// produced by a helper: every value it may yield is nil or ext.Value[2:]
+				nSl := 0
+				okSerial = true
+				for _, lf := range w.Leaves(serial, mh.Blocks[0].Instrs[0]) {
+					if isNilConst(strip(lf.Val)) {
+						continue
+					}
+					sl, isSl := strip(lf.Val).(*ssa.Slice)
+					lo, isK := int64(0), false
+					if isSl && sl.Low != nil {
+						lo, isK = intConst(sl.Low)
+					}
+					if isSl && isK && lo == 2 && sl.High == nil && strings.HasSuffix(w.Expr(sl.X), ".Value") {
+						nSl++
+					} else {
+						okSerial = false
+					}
+				}
+				okSerial = okSerial && nSl >= 1
+			}
+			c.Check(okSerial, "R4.modhex", "ModHex|serial is the extension value after the DER header", w.FnPos(mh), "ext.Value[2:]", "the serial bytes are not the extension value after its two header bytes: "+shortName(sx))
 			for _, r := range w.MayBeNilReturns(mh) {
 				okDom := false
 				if sp, ok := start.(*ssa.Phi); ok {
